@@ -18,7 +18,7 @@ import (
 func Expr(v ssa.Value) string { return exprD(v, 6, map[ssa.Value]bool{}) }
 
 // ExprDeep renders with call arguments expanded.
-func ExprDeep(v ssa.Value) string { return exprD(v, 11, map[ssa.Value]bool{}) }
+func ExprDeep(v ssa.Value) string { return exprD(v, 20, map[ssa.Value]bool{}) }
 
 func calleeName(c *ssa.CallCommon) string {
 	if c.IsInvoke() {
